@@ -134,4 +134,68 @@ theorem fftRec_eq_dft (k : Nat) : ∀ (ω : R) (tw : Nat → R) (x : Nat → M),
       rw [hb, h, Nat.one_mul, Nat.add_comm, dft_butterfly_high ω (2 ^ k) hneg']
       rfl
 
+/-! ### orthogonality and inversion (over a field) -/
+
+section inversion
+variable {F : Type} [Field F] {N : Type} [AddCommGroup N] [Module F N]
+
+/-- `Σ_{i<n} (ω⁻¹)^(l·i) · ω^(i·j)` is `n` for `j = l` and `0` otherwise -/
+theorem orthogonality (ω : F) (n : Nat) (hω : IsPrimitiveRoot ω n) (l j : Nat) (hl : l < n) (hj : j < n) :
+    ∑ i ∈ range n, ((ω⁻¹) ^ l) ^ i * (ω ^ i) ^ j = if j = l then (n : F) else 0 := by
+  have hn : 0 < n := by omega
+  have hω0 : ω ≠ 0 := hω.ne_zero (by omega)
+  have hterm : ∀ i, ((ω⁻¹) ^ l) ^ i * (ω ^ i) ^ j = (ω ^ j * (ω ^ l)⁻¹) ^ i := by
+    intro i
+    rw [mul_pow, ← pow_mul ω i j, ← pow_mul ω j i, mul_comm i j, inv_pow, inv_pow, mul_comm]
+  simp only [hterm]
+  by_cases h : j = l
+  · subst h
+    rw [if_pos rfl, mul_inv_cancel₀ (pow_ne_zero _ hω0)]
+    simp
+  · rw [if_neg h]
+    set x := ω ^ j * (ω ^ l)⁻¹ with hx
+    have hx1 : x ≠ 1 := by
+      intro e
+      apply h
+      have : ω ^ j = ω ^ l := by
+        have := congrArg (· * ω ^ l) e
+        simp only [hx, one_mul] at this
+        rwa [mul_assoc, inv_mul_cancel₀ (pow_ne_zero _ hω0), mul_one] at this
+      exact hω.pow_inj hj hl this
+    have hxn : x ^ n = 1 := by
+      rw [hx, mul_pow, inv_pow, ← pow_mul, ← pow_mul, mul_comm j n, mul_comm l n, pow_mul, pow_mul,
+        hω.pow_eq_one]
+      simp
+    have hg := geom_sum_mul x n
+    rw [hxn, sub_self] at hg
+    rcases mul_eq_zero.mp hg with h0 | h0
+    · exact h0
+    · exact absurd (sub_eq_zero.mp h0) hx1
+
+/-- the transform with root `ω⁻¹` of the transform with root `ω` is `n •` the original -/
+theorem dft_inv (ω : F) (n : Nat) (hω : IsPrimitiveRoot ω n) (p : Nat → N) (l : Nat) (hl : l < n) :
+    dft ω⁻¹ n (dft ω n p) l = (n : F) • p l := by
+  unfold dft evalAt
+  simp only [smul_sum, smul_smul]
+  rw [sum_comm]
+  have : ∀ j ∈ range n, ∑ i ∈ range n, (((ω⁻¹) ^ l) ^ i * (ω ^ i) ^ j) • p j
+      = (if j = l then (n : F) else 0) • p j := by
+    intro j hj
+    rw [← sum_smul, orthogonality ω n hω l j hl (mem_range.mp hj)]
+  rw [sum_congr rfl this]
+  simp only [ite_smul, zero_smul]
+  rw [sum_ite_eq' (range n) l]
+  simp [hl]
+
+theorem IsPrimitiveRoot_inv' (ω : F) (n : Nat) (hω : IsPrimitiveRoot ω n) : IsPrimitiveRoot ω⁻¹ n :=
+  hω.inv
+
+/-- conversely: the transform with root `ω` of the transform with root `ω⁻¹` -/
+theorem dft_inv' (ω : F) (n : Nat) (hω : IsPrimitiveRoot ω n) (v : Nat → N) (l : Nat) (hl : l < n) :
+    dft ω n (dft ω⁻¹ n v) l = (n : F) • v l := by
+  have := dft_inv ω⁻¹ n hω.inv v l hl
+  rwa [inv_inv] at this
+
+end inversion
+
 end WinterProofs.C09
